@@ -99,6 +99,23 @@ impl DayCase {
     }
 }
 
+/// Is this parameter set one the properties about named methods quantify over: no minute offsets, no
+/// Fajr or Imsaak interval, Isha either by an angle in [9, 21] or by the 90-minute interval of the two
+/// interval methods (whose Isha angle is 0), Fajr angle in [9, 21]?  Inputs handed over from a correspondence break are
+/// arbitrary (angles 0..25, intervals 0..180, offsets): a falsifier evaluates its clauses only on the
+/// ones inside its property's quantifier.
+pub fn named_like(c: &DayCase, allow_interval_isha: bool) -> bool {
+    let fa = c.p.angles[&Prayer::Fajr];
+    let ia = c.p.angles[&Prayer::Isha];
+    let ii = c.p.intervals[&Prayer::Isha];
+    PRAYERS.iter().all(|q| c.p.minutes[q] == 0.)
+        && c.p.intervals[&Prayer::Fajr] == 0.
+        && c.p.intervals[&Prayer::Imsaak] == 0.
+        && (9. ..=21.).contains(&fa)
+        && (0.5..=3.).contains(&c.p.angles[&Prayer::Imsaak])
+        && (if ii == 0. { (9. ..=21.).contains(&ia) } else { allow_interval_isha && ii == 90. && ia == 0. })
+}
+
 pub fn cases_from(js: &[Value], reqs: &[String]) -> Vec<DayCase> {
     let mut v: Vec<DayCase> = js.iter().filter_map(DayCase::from_json).collect();
     v.extend(reqs.iter().filter_map(|r| DayCase::from_req(r)));
@@ -256,9 +273,8 @@ fn c08_one(ctx: &mut Ctx, c: &DayCase, pol: usize) {
     }
     if !HALF.contains(&pol) {
         for q in PRAYERS {
-            if q == Prayer::Imsaak {
-                continue;
-            }
+            // Imsaak is a time of the result like the other six: unflagged means conventional
+            // (the second half - "a replaced time is flagged" - is stated for the six the policies write)
             if let Ok(t) = rp[&q] {
                 if !t.extreme && rp[&q] != rc[&q] {
                     ctx.fail(c.to_json(), show(), format!("unflagged {:?} equals the conventional time", q));
@@ -269,6 +285,9 @@ fn c08_one(ctx: &mut Ctx, c: &DayCase, pol: usize) {
                 }
             }
             // a replaced time is flagged: differs from the conventional one => extreme
+            if q == Prayer::Imsaak {
+                continue;
+            }
             if let (Ok(a), Ok(b)) = (rp[&q], rc[&q]) {
                 if a.time != b.time && !a.extreme {
                     ctx.fail(c.to_json(), show(), format!("replaced {:?} flagged extreme", q));
@@ -283,8 +302,16 @@ pub fn c08(ctx: &mut Ctx, tier: &str, r: &mut Rng, js: &[Value], reqs: &[String]
     for c in cases_from(js, reqs) {
         let (pn, _) = policy_name(&c.p.extreme_latitude_method);
         let pol = POLICY_NAMES.iter().position(|n| *n == pn).unwrap();
-        if pol != 0 {
+        // inputs handed over from a correspondence break are evaluated only inside the property's
+        // quantifier: |lat| <= 70, the angle/interval configuration of a named method (no Fajr or
+        // Imsaak interval, Isha interval 0 or the 90 minutes of the two interval methods), and the
+        // interval-consuming policies with angle-based methods only
+        let named = named_like(&c, true);
+        let interval_method = c.p.intervals[&Prayer::Isha] != 0.;
+        if pol != 0 && named && f64::from(c.l.coords.latitude).abs() <= 70. && !(CONSUMES_INTERVALS.contains(&pol) && interval_method) {
             c08_one(ctx, &c, pol);
+        } else {
+            ctx.branch("handed-over-input-outside-quantifier");
         }
     }
     if replay_only {
